@@ -46,6 +46,9 @@ type Row struct {
 	TabEnv map[ssa.Value]*Org
 	TabElem *SV
 	Sel    *ssa.Function
+	// Other: number of conditions on the way to the row that are not
+	// dispatch predicates (0 in a dispatcher made of keyword tests only)
+	Other  int
 }
 
 func (r Row) Name() string {
@@ -151,7 +154,7 @@ func FindDispatch(p *Prog) *Dispatch {
 			}
 			nf := 0
 			for _, e := range phi.Edges {
-				if _, ok := e.(*ssa.Function); ok {
+				if _, ok := strip(e).(*ssa.Function); ok {
 					nf++
 				}
 			}
